@@ -87,6 +87,12 @@ impl GraphBlock {
     }
 
     pub fn to_markdown(&self, options: &MarkdownOptions) -> String {
+        self.to_markdown_marked(options, false)
+    }
+
+    /// `other_marker`: write a list with `*` / `1)` instead of `-` / `1.`; a list that
+    /// directly follows a list of the same kind needs it, or the two are read back as one
+    fn to_markdown_marked(&self, options: &MarkdownOptions, other_marker: bool) -> String {
         match self {
             GraphBlock::Plain(inlines) => format!("{}\n", inlines_to_markdown(inlines, options)),
             GraphBlock::Para(inlines) => format!("{}\n", inlines_to_markdown(inlines, options)),
@@ -128,6 +134,7 @@ impl GraphBlock {
                     left_pad_and_prefix_num(
                         &blocks_to_markdown_and(item, self.is_sparce_list(), options),
                         n + 1,
+                        if other_marker { ')' } else { '.' },
                     )
                 })
                 .collect::<Vec<String>>()
@@ -135,11 +142,10 @@ impl GraphBlock {
             GraphBlock::BulletList(items) => items
                 .iter()
                 .map(|item| {
-                    left_pad_and_prefix(&blocks_to_markdown_and(
-                        item,
-                        self.is_sparce_list(),
-                        options,
-                    ))
+                    left_pad_and_prefix(
+                        &blocks_to_markdown_and(item, self.is_sparce_list(), options),
+                        if other_marker { '*' } else { '-' },
+                    )
                 })
                 .collect::<Vec<String>>()
                 .join(if self.is_sparce_list() { "\n" } else { "" }),
@@ -431,12 +437,12 @@ impl GraphInline {
     }
 }
 
-fn left_pad_and_prefix(text: &str) -> String {
+fn left_pad_and_prefix(text: &str, bullet: char) -> String {
     let mut result = String::new();
     for (n, line) in text.lines().enumerate() {
         if n == 0 {
             // the marker is written even when the item has no text of its own
-            result.push_str(format!("- {}", line).trim_end());
+            result.push_str(format!("{} {}", bullet, line).trim_end());
             result.push_str("\n");
         } else if line.is_empty() {
             result.push_str("\n");
@@ -448,8 +454,8 @@ fn left_pad_and_prefix(text: &str) -> String {
     result
 }
 
-fn left_pad_and_prefix_num(text: &str, num: usize) -> String {
-    let prefix = format!("{}.{}", num, if num > 9 { "" } else { " " });
+fn left_pad_and_prefix_num(text: &str, num: usize, delimiter: char) -> String {
+    let prefix = format!("{}{}{}", num, delimiter, if num > 9 { "" } else { " " });
     let mut result = String::new();
     for (n, line) in text.lines().enumerate() {
         if n == 0 {
@@ -627,6 +633,7 @@ pub fn inlines_to_markdown(content: &GraphInlines, options: &MarkdownOptions) ->
 
 pub fn blocks_to_markdown_and(blocks: &Blocks, sparce: bool, options: &MarkdownOptions) -> String {
     let mut result = String::new();
+    let other_marker = other_markers(blocks);
 
     for (n, block) in blocks.iter().enumerate() {
         if n > 0 && sparce {
@@ -653,10 +660,25 @@ pub fn blocks_to_markdown_and(blocks: &Blocks, sparce: bool, options: &MarkdownO
             // continuation of the quote's last paragraph
             result.push_str("\n");
         }
-        result.push_str(&block.to_markdown(options));
+        result.push_str(&block.to_markdown_marked(options, other_marker[n]));
     }
 
     result
+}
+
+/// for every block: is it a list that directly follows a list of the same kind which is
+/// written with the usual marker
+fn other_markers(blocks: &Blocks) -> Vec<bool> {
+    let mut other = vec![false; blocks.len()];
+    for n in 1..blocks.len() {
+        let same_kind = matches!(
+            (&blocks[n - 1], &blocks[n]),
+            (GraphBlock::BulletList(_), GraphBlock::BulletList(_))
+                | (GraphBlock::OrderedList(_), GraphBlock::OrderedList(_))
+        );
+        other[n] = same_kind && !other[n - 1];
+    }
+    other
 }
 
 pub fn blocks_to_markdown(blocks: &Blocks, options: &MarkdownOptions) -> String {
@@ -668,9 +690,11 @@ pub fn blocks_to_markdown(blocks: &Blocks, options: &MarkdownOptions) -> String 
 }
 
 pub fn blocks_to_markdown_sparce(blocks: &Blocks, options: &MarkdownOptions) -> String {
+    let other_marker = other_markers(blocks);
     blocks
         .iter()
-        .map(|block| block.to_markdown(options))
+        .enumerate()
+        .map(|(n, block)| block.to_markdown_marked(options, other_marker[n]))
         // a block that renders to nothing (a quote or list without content) must not
         // leave a stray blank line behind
         .filter(|markdown| !markdown.is_empty())
